@@ -22,6 +22,7 @@ def run(chk):
     r16d(chk)
     r16e(chk)
     r16f(chk)
+    r16g(chk)
 
 
 def eval_append(chk, typ, val, context, prefix, namespaces=None):
@@ -373,3 +374,32 @@ def r16f(chk, rid='R16.f'):
             selector = Record(wellformed=True, seq=[Record(type=typ, value=v)], _namespaces=Record(get=lambda k, d=None: None, prefixForNamespaceURI=lambda u: 'p'))
             got = Evaluator(serm.get('CSSSerializer.do_css_Selector'), intrinsics={'Out': lambda s: out_model(chk, s), 'cssutils': Record(_ANYNS='ANY')}, module=serm, cls='CSSSerializer').run(self=ser, selector=selector)
             chk.ob(rid, SEL, f'New.{h.name}', f'{val} (item type {typ!r}) is written unchanged with minimizeColorHash={mini}', got == val, f'written as {got!r}: the selector no longer reparses to itself, and list de-duplication by text confuses it with another selector')
+
+
+def r16g(chk, rid='R16.g'):
+    chk.rule(rid, 'a reported selector error makes the selector ill-formed: in every handler the selector state machine registers (New.productions) and in New.append, every path from the entry to a return that passes an error report (self._log.error) also passes `self.wellformed = False` - a selector that logged a syntax error in logging mode is dropped together with its list and rule, it is not kept in a repaired form')
+    from .callbacks import new_productions
+
+    m = chk.repo.mod(SEL)
+    fns = {}
+    for cb in new_productions(chk.repo):
+        if isinstance(cb.target, ast.FunctionDef):
+            fns[cb.target.name] = cb.target
+    fns['append'] = m.get('New.append')
+    n = 0
+    for name, fn in sorted(fns.items()):
+        g = cfgmod.CFG(fn)
+        is_wf = lambda nd: nd.kind == 'stmt' and isinstance(nd.stmt, ast.Assign) and any(text(t) == 'self.wellformed' for t in nd.stmt.targets) and const(nd.stmt.value) is False  # noqa: E731
+        errs = [nd for nd in g.nodes if nd.stmt is not None and nd.kind in ('stmt', 'return') and any(call_name(c) == 'self._log.error' for c in cfgmod.calls_at(nd))]
+        before = g.reachable([ENTRY], avoid=is_wf)
+        for e in errs:
+            n += 1
+            ok = True
+            if e.id in before:
+                after = g.reachable([e.id], avoid=is_wf)
+                ok = EXIT_RET not in after
+            chk.ob(rid, SEL, f'New.{name}', f'`{text(e.stmt)[:60]}` comes with wellformed = False on every path', ok,
+                   'a path reports the error and returns with the selector still well-formed: in logging mode the damaged selector is kept (its text differs from the source) instead of being dropped with its rule', trivial=True)
+    if n < 12:
+        raise AnalysisError(f'only {n} error reports found in the selector handlers (12+ confirmed by hand)')
+    chk.extra['selector_error_reports'] = n
